@@ -6,7 +6,8 @@ package main
 //	+1  native-method sweep (16 flag sets × every native method, through proxy.fwd)
 //	+2  CALLT under 16 flag sets, LoadScript under 16 × 16 (context flags × requested flags)
 //	+3  permission pairs: entry → caller.relay → callee.method for all callers × callees × methods
-//	+4… random call chains through the relay contracts (entry flags, requested flags, safe/non-safe methods)
+//	+4  dynamic scripts: entry → relay.dyn → LoadScript → callee.method
+//	+5… random call chains through the relay contracts (entry flags, requested flags, safe/non-safe methods)
 
 import (
 	"fmt"
@@ -222,6 +223,50 @@ func (w *world) tokenAndLoadScript(o *hx.Out, k int) {
 	}
 }
 
+// dynScripts: entry(F0) → relay.dyn (requested All) → LoadScript (requested All) → callee.method (requested All):
+// the dynamic script is not a deployed contract, so no permission applies to its call; its flags are at most
+// ReadStates|AllowCall.
+func (w *world) dynScripts(o *hx.Out, k int) {
+	w.declare(o)
+	for _, f0 := range []int{15, 5, 7, 13, 4, 1} {
+		for _, caller := range w.relays {
+			for _, callee := range w.relays {
+				for _, m := range []string{"a", "s"} {
+					bw := io.NewBufBinWriter()
+					emit.AppCall(bw.BinWriter, caller.c.Hash, "dyn", callflag.All, callee.c.Hash, m)
+					r := w.run(bw.Bytes(), callflag.CallFlag(f0))
+					depth := treeDepth(r.tree) - 1
+					obs := ""
+					switch {
+					case r.panicky:
+						obs = "panic"
+					case denied(r.msg):
+						obs = fmt.Sprintf("fault:flags %d", depth)
+					case strings.Contains(r.msg, "disallowed method call"):
+						obs = fmt.Sprintf("fault:perm %d", depth)
+					case !r.halt:
+						obs = "fault:other " + strings.ReplaceAll(r.msg, " ", "_")
+					default:
+						obs = "halt:bad-result"
+						if len(r.result) == 1 {
+							if arr, ok := r.result[0].Value().([]stackitem.Item); ok && len(arr) == 1 {
+								if v, err := arr[0].TryInteger(); err == nil {
+									obs = fmt.Sprintf("halt %d", v.Int64())
+									if int(v.Int64())&^(f0&5) != 0 {
+										o.Fail("flags-grew", k, "callee of a dynamic script has flags %d (entry %d)", v.Int64(), f0)
+									}
+								}
+							}
+						}
+					}
+					o.Line(fmt.Sprintf("dynchain %d %d %d %s %s", f0, caller.id, callee.id, m, b01(isSafeMethod(m))), obs)
+					o.Count("dyn:" + strings.SplitN(obs, " ", 2)[0])
+				}
+			}
+		}
+	}
+}
+
 // permissionPairs: entry(All) → caller.relay(All) → callee.method(All) for every pair and method.
 func (w *world) permissionPairs(o *hx.Out, k int) {
 	w.declare(o)
@@ -276,14 +321,14 @@ func genChain(r *prng.R, maxDepth int) (int, []hop) {
 func chainCases(f *hx.Flags, o *hx.Out, first int) {
 	k := first
 	levels := []int{7, 8, 6, 5, 4, 3, 2, 1, 0} // 7 = latest stable hardfork (the default configuration) first
-	nChains := 400
+	nChains := 1500
 	maxDepth := 4
 	if f.Tier == "thorough" {
-		nChains = 20000
+		nChains = 60000
 		maxDepth = 6
 	}
 	for _, hf := range levels {
-		span := 4 + nChains
+		span := 5 + nChains
 		wanted := false
 		for j := k; j < k+span; j++ {
 			if f.Want(j) {
@@ -311,6 +356,7 @@ func chainCases(f *hx.Flags, o *hx.Out, first int) {
 			func(k int) { w.sweepNatives(o, k) },
 			func(k int) { w.tokenAndLoadScript(o, k) },
 			func(k int) { w.permissionPairs(o, k) },
+			func(k int) { w.dynScripts(o, k) },
 		}
 		for _, fn := range fixed {
 			if f.Want(k) {
